@@ -38,7 +38,8 @@ Proof. intros courses parts K a V H. apply (score_le_theo_max courses parts a V)
 (* external rating (--ignore-assigned): an ignored pre-assigned participant is rated by the position of his assigned course in his
    ORIGINAL choice list -- choices of skipped (cancelled / not offered) courses count -- and by num_choices + 1 if he did not choose it.
    first_rank is the least such position (C08_first_rank).  The quality record of the reader specification (= transcription, C12_refinement)
-   lists exactly these penalties for the ignored registrations that do not instruct their assigned course. *)
+   lists exactly these penalties for the ignored registrations that do not instruct their assigned course and have a valid choice
+   (participants without choices are not rated -- defect D19, fixed like D18). *)
 Theorem C08_external_rank : forall cmap l res ci td, Json.pcd_choices cmap l 0 = Json.ROk res ->
   Json.assigned_penalty ci res td = match CdeQuality.first_rank cmap l ci 0 with Some r => r | None => Json.unchosen_penalty td end.
 Proof. exact CdeQuality.assigned_penalty_rank. Qed.
@@ -55,7 +56,7 @@ Qed.
 Theorem C08_external_list : forall ign_a td rviews,
   snd (CdeSpec.spec_quality ign_a td rviews) =
   map (fun r => match Json.pc_assigned (CdeSpec.rv_pcd r) with Some ci => Json.assigned_penalty ci (Json.pc_choices (CdeSpec.rv_pcd r)) td | None => 0 end)
-      (filter (fun r => negb (CdeSpec.same_course r)) (filter (CdeSpec.ignored ign_a) rviews)).
+      (filter (fun r => negb (CdeSpec.same_course r) && CdeSpec.has_choices r) (filter (CdeSpec.ignored ign_a) rviews)).
 Proof. exact CdeQuality.spec_quality_penalties. Qed.
 
 (* ... and the instructors it counts (each with penalty 0) are exactly the ignored registrations that instruct their assigned course AND have
